@@ -232,7 +232,7 @@ func NewStack(total, perPeer uint64, retries int) *Stack {
 		s.Queues = append(s.Queues, tq.MessageQueue)
 		return tq
 	})
-	s.H = &Handler{pmm: s.PMM, attached: map[*messagequeue.Builder]map[graphsync.RequestID]bool{}}
+	s.H = &Handler{ctx: ctx, pmm: s.PMM, attached: map[*messagequeue.Builder]map[graphsync.RequestID]bool{}}
 	s.RA = responseassembler.New(ctx, s.H)
 	return s
 }
@@ -274,13 +274,27 @@ func (t *tagQ) AllocateAndBuildMessage(size uint64, fn func(*messagequeue.Builde
 // Handler wraps the real PeerMessageManager and records, per message builder,
 // which requests attached a subscriber to it (the ghost for C16).
 type Handler struct {
+	ctx context.Context
+	// Dropped: a call returned without the build callback having run while the
+	// instance was not shutting down
+	Dropped  bool
 	pmm      *peermanager.PeerMessageManager
 	builders []*messagequeue.Builder
 	attached map[*messagequeue.Builder]map[graphsync.RequestID]bool
 }
 
 func (h *Handler) AllocateAndBuildMessage(p peer.ID, size uint64, fn func(*messagequeue.Builder)) {
+	ran := false
+	defer func() {
+		// the queue either runs the build callback (on a live or on a failed
+		// builder) or the whole instance is shutting down: data handed to it is
+		// never dropped without a word
+		if !ran && h.ctx != nil && h.ctx.Err() == nil {
+			h.Dropped = true
+		}
+	}()
 	h.pmm.AllocateAndBuildMessage(p, size, func(b *messagequeue.Builder) {
+		ran = true
 		fn(b)
 		if h.attached[b] == nil {
 			h.attached[b] = map[graphsync.RequestID]bool{}
